@@ -480,30 +480,45 @@ def _padding(ctx, repo, avp):
     sp = ctx.need(oc.methods.get("set_padding"), "OctetStringType.set_padding")
     targets.append((oc, sp, "self.data", f"{oc.qual}.set_padding"))
     n_inst = 0
+    # writers on terms: len(data) = 4K + r (and the empty case); the padding produced must be the p < 4 with (r + p) % 4 == 0
+    K_ = sym.S("int:K")
     for ci, fn, dataexpr, construct in targets:
+        DATA_T = ("attr", ("name", "self"), dataexpr.split(".", 1)[1])
+        LEN_T = ("call", ("name", "len"), (DATA_T,), ())
         for r in range(4):
             for nonempty in ((False, True) if r == 0 else (True,)):
-                def special(e, r=r, nonempty=nonempty):
-                    t = ast.unparse(e)
-                    if t == f"len({dataexpr})":
-                        return NotImplemented
-                    if isinstance(e, ast.BinOp) and isinstance(e.op, ast.Mod) and ast.unparse(e.left) == f"len({dataexpr})" \
-                            and isinstance(e.right, ast.Constant) and e.right.value == 4:
-                        return r
-                    if t == dataexpr:
-                        return "x" if nonempty else None     # truthiness only
-                    return NotImplemented
-                res = list(run_paths(fn.body, {}, special, fold))
-                for env, term, val in res:
-                    n_inst += 1
-                    if val is UNK:
-                        ctx.undecided("R-RES4", construct, ci.where(fn), f"residue {r}: result not evaluable", key=f"res:{r}")
+                def hook(t, r=r, nonempty=nonempty):
+                    if t == LEN_T:
+                        return sym.mk_lin(r, {K_: 4}) if nonempty else 0
+                    if t == DATA_T and not nonempty:
+                        return b""
+                    return None
+                st0 = sym.PathState({}, [(DATA_T, True)] if nonempty else [], [])
+                try:
+                    res = sym.Interp(fold=fold, hook=hook).run(strip_doc(fn.body), st0)
+                except sym.TooMany:
+                    ctx.undecided("R-RES4", construct, ci.where(fn), "too many paths", key=f"res:{r}")
+                    continue
+                for p_ in res:
+                    if p_.term == "raise":
                         continue
-                    p = val[1] if isinstance(val, tuple) else 0 if val is None else None
-                    ok = p is not None and (r + p) % 4 == 0 and p < 4
-                    ctx.decide(ok, "R-RES4", construct, ci.where(fn), f"len%4={r}: padding {p}",
-                               f"for len(data) % 4 == {r} the padding is {val!r}: (r + p) % 4 != 0 or p >= 4 - the AVP is not "
-                               f"padded to a 4-octet boundary with fewer than 4 zero octets", key=f"res:{r}")
+                    n_inst += 1
+                    val = p_.value if p_.term == "return" else None
+                    if p_.term == "fall" and fn.name == "set_padding":
+                        val = p_.get("self._padding", p_.get("self.padding", None))
+                    if val is None:
+                        pl = 0
+                    elif isinstance(val, bytes):
+                        pl = len(val) if not val.strip(b"\x00") else None
+                    else:
+                        pl = None
+                    if pl is None:
+                        ctx.undecided("R-RES4", construct, ci.where(fn), f"residue {r}: result `{sym.show(val)[:50]}` not evaluable", key=f"res:{r}")
+                        continue
+                    ok = (r + pl) % 4 == 0 and pl < 4 and (nonempty or pl == 0)
+                    ctx.decide(ok, "R-RES4", construct, ci.where(fn), f"len%4={r}: padding {pl}",
+                               f"for len(data) % 4 == {r}{'' if nonempty else ' (empty data)'} the padding is {pl} zero octet(s): (r + p) % 4 != 0 "
+                               f"or p >= 4 - the AVP is not padded to a 4-octet boundary with fewer than 4 zero octets", key=f"res:{r}")
     # reader: for every residue of the length the index advances to the next 4-octet boundary after the AVP
     ld = avp.methods.get("load")
     I, L = sym.S("int:I"), sym.S("int:L")
